@@ -188,9 +188,11 @@ pub fn classify(act: &Act, pre: &Option<Position>, post: &Option<Position>, ok: 
             }
         }
         Act::Liquidate { .. } => {
-            if post.is_none() || b.is_zero() {
+            // full = the position no longer exists; a position that remains (even with size 0 after a
+            // 100% partial liquidation) went through the partial path
+            if post.is_none() {
                 Effect::LiqFull
-            } else if a.is_neg() == b.is_neg() && b.mag < a.mag {
+            } else if (b.is_zero() || a.is_neg() == b.is_neg()) && b.mag < a.mag {
                 Effect::LiqPartial
             } else if a == b {
                 Effect::None
